@@ -23,6 +23,7 @@ import (
 	"github.com/tikv/client-go/v2/util/async"
 	"github.com/tikv/client-go/v2/verif/ev"
 	_ "github.com/tikv/client-go/v2/verif/quiet"
+	"github.com/tikv/client-go/v2/verif/sim"
 	"pgregory.net/rapid"
 )
 
@@ -294,7 +295,7 @@ func TestRawKVModel(t *testing.T) {
 		}
 		defer func() {
 			cache.Close()
-			inner.Close()
+			sim.CloseMock(inner)
 		}()
 		ctx := context.Background()
 		// call wraps one API call: optional mid-call topology change + panic capture + interposer verdict
